@@ -33,9 +33,9 @@ type c11Kind struct {
 var c11Kinds = []c11Kind{
 	{name: "mock", mock: true},
 	{name: "badger-untyped"},
-	{name: "badger-untyped-prefix", prefix: "p"},
+	{name: "badger-untyped-prefix", prefix: "ba"},
 	{name: "badger-typed", typed: true},
-	{name: "badger-typed-prefix", typed: true, prefix: "p"},
+	{name: "badger-typed-prefix", typed: true, prefix: "ba"},
 }
 
 func (k c11Kind) val(i int) interface{} {
